@@ -52,9 +52,9 @@ macro_rules! invert_state_case {
 }
 //@ob fn="<Invert<E> as Updatable<E>>::update" at=src/devices.rs:38 clause="neither terminal has a state: term1 := -; term2 := - (nothing written, Ok, no panic)"
 invert_state_case!(c08_invert_neither, false, false);
-//@ob fn="<Invert<E> as Updatable<E>>::update" at=src/devices.rs:38 prop=C08,C03 also=rel_check clause="only side 1 has a state: term1 := - (unchanged); term2 := -(s1) @t1"
+//@ob fn="<Invert<E> as Updatable<E>>::update" at=src/devices.rs:38 prop=C08,C03 also_thorough=rel_check clause="only side 1 has a state: term1 := - (unchanged); term2 := -(s1) @t1"
 invert_state_case!(c08_invert_only1, true, false);
-//@ob fn="<Invert<E> as Updatable<E>>::update" at=src/devices.rs:38 prop=C08,C03 also=rel_check clause="only side 2 has a state: term1 := -(s2) @t2; term2 := - (unchanged)"
+//@ob fn="<Invert<E> as Updatable<E>>::update" at=src/devices.rs:38 prop=C08,C03 also_thorough=rel_check clause="only side 2 has a state: term1 := -(s2) @t2; term2 := - (unchanged)"
 invert_state_case!(c08_invert_only2, false, true);
 //@ob fn="<Invert<E> as Updatable<E>>::update" at=src/devices.rs:38 prop=C08,C03 also=rel_check clause="both present: term1 := (s1 - s2)/2 @max(t1,t2); term2 := -((s1 - s2)/2) @max(t1,t2)"
 invert_state_case!(c08_invert_both, true, true);
@@ -158,9 +158,9 @@ macro_rules! gear_state_case {
 gear_state_case!(c08_gear_neither, false, false);
 //@ob fn="<GearTrain<E> as Updatable<E>>::update" at=src/devices.rs:153 prop=C08,C03 also=rel_check clause="only side 1 has a state, any ratio r: term1 := - (unchanged); term2 := s1 * r @t1"
 gear_state_case!(c08_gear_only1, true, false);
-//@ob fn="<GearTrain<E> as Updatable<E>>::update" at=src/devices.rs:153 prop=C08,C03 also=rel_check clause="only side 2 has a state, any ratio r: term1 := s2 / r @t2; term2 := - (unchanged)"
+//@ob fn="<GearTrain<E> as Updatable<E>>::update" at=src/devices.rs:153 prop=C08,C03 also_thorough=rel_check clause="only side 2 has a state, any ratio r: term1 := s2 / r @t2; term2 := - (unchanged)"
 gear_state_case!(c08_gear_only2, false, true);
-//@ob fn="<GearTrain<E> as Updatable<E>>::update" at=src/devices.rs:153 prop=C08,C03 also=rel_check clause="both present, any ratio r (all f32 bit patterns), with D = r*r + 1.0 in f32 and X = s1 + s2 * r: term1 := X / D @max(t1,t2); term2 := (X * r) / D @max(t1,t2)"
+//@ob fn="<GearTrain<E> as Updatable<E>>::update" at=src/devices.rs:153 prop=C08,C03 also_thorough=rel_check clause="both present, any ratio r (all f32 bit patterns), with D = r*r + 1.0 in f32 and X = s1 + s2 * r: term1 := X / D @max(t1,t2); term2 := (X * r) / D @max(t1,t2)"
 gear_state_case!(c08_gear_both, true, true, #[kani::solver(kissat)]);
 
 //@ob fn="<GearTrain<E> as Updatable<E>>::update" at=src/devices.rs:153 prop=C08,C09 clause="ratio -2.5, each terminal connected to an external terminal, all 16 have/lack subsets: own slots become the gear-train trees of the terminal READS (gK = (own + partner)/2 @max | the one present | none); partner slots unchanged"
@@ -448,19 +448,19 @@ macro_rules! differential_case {
         }
     };
 }
-//@ob fn="<Differential<E> as Updatable<E>>::update" at=src/devices.rs:376 prop=C08,C03 also=rel_check clause="distrust side 1, sum and side 2 present (side 1 present or not): side1 := ssum - s2 @max(tsum,t2); side2 := -; sum := -"
+//@ob fn="<Differential<E> as Updatable<E>>::update" at=src/devices.rs:376 prop=C08,C03 also_thorough=rel_check clause="distrust side 1, sum and side 2 present (side 1 present or not): side1 := ssum - s2 @max(tsum,t2); side2 := -; sum := -"
 differential_case!(c08_differential_side1_ready, 1, DifferentialDistrust::Side1, true);
 //@ob fn="<Differential<E> as Updatable<E>>::update" at=src/devices.rs:376 clause="distrust side 1, sum or side 2 lacks a state (all such subsets): nothing written to any terminal"
 differential_case!(c08_differential_side1_waits, 1, DifferentialDistrust::Side1, false);
-//@ob fn="<Differential<E> as Updatable<E>>::update" at=src/devices.rs:387 prop=C08,C03 also=rel_check clause="distrust side 2, sum and side 1 present: side2 := ssum - s1 @max(tsum,t1); side1 := -; sum := -"
+//@ob fn="<Differential<E> as Updatable<E>>::update" at=src/devices.rs:387 prop=C08,C03 also_thorough=rel_check clause="distrust side 2, sum and side 1 present: side2 := ssum - s1 @max(tsum,t1); side1 := -; sum := -"
 differential_case!(c08_differential_side2_ready, 2, DifferentialDistrust::Side2, true);
 //@ob fn="<Differential<E> as Updatable<E>>::update" at=src/devices.rs:387 clause="distrust side 2, sum or side 1 lacks a state: nothing written to any terminal"
 differential_case!(c08_differential_side2_waits, 2, DifferentialDistrust::Side2, false);
-//@ob fn="<Differential<E> as Updatable<E>>::update" at=src/devices.rs:398 prop=C08,C03 also=rel_check clause="distrust sum, side 1 and side 2 present: sum := s1 + s2 @max(t1,t2); side1 := -; side2 := -"
+//@ob fn="<Differential<E> as Updatable<E>>::update" at=src/devices.rs:398 prop=C08,C03 also_thorough=rel_check clause="distrust sum, side 1 and side 2 present: sum := s1 + s2 @max(t1,t2); side1 := -; side2 := -"
 differential_case!(c08_differential_sum_ready, 3, DifferentialDistrust::Sum, true);
 //@ob fn="<Differential<E> as Updatable<E>>::update" at=src/devices.rs:398 clause="distrust sum, side 1 or side 2 lacks a state: nothing written to any terminal"
 differential_case!(c08_differential_sum_waits, 3, DifferentialDistrust::Sum, false);
-//@ob fn="<Differential<E> as Updatable<E>>::update" at=src/devices.rs:409 prop=C08,C03 also=rel_check clause="equal trust, all three present, T = max(t1,t2,tsum): sum := ((s1 + s2) + ssum * 2) / 3 @T; side1 := ((s1 * 2 - s2) + ssum) / 3 @T; side2 := ((-(s1) + s2 * 2) + ssum) / 3 @T"
+//@ob fn="<Differential<E> as Updatable<E>>::update" at=src/devices.rs:409 prop=C08,C03 also_thorough=rel_check clause="equal trust, all three present, T = max(t1,t2,tsum): sum := ((s1 + s2) + ssum * 2) / 3 @T; side1 := ((s1 * 2 - s2) + ssum) / 3 @T; side2 := ((-(s1) + s2 * 2) + ssum) / 3 @T"
 differential_case!(c08_differential_equal_ready, 0, DifferentialDistrust::Equal, true);
 //@ob fn="<Differential<E> as Updatable<E>>::update" at=src/devices.rs:409 clause="equal trust, any of the three lacks a state (all 7 such subsets): nothing written to any terminal"
 differential_case!(c08_differential_equal_waits, 0, DifferentialDistrust::Equal, false);
